@@ -7,6 +7,7 @@ import (
 	"time"
 
 	"verif/h"
+	"verif/ref"
 )
 
 // C07: an incomplete message is never presented to the backend as complete.
@@ -98,13 +99,119 @@ func tailStr(b []byte, n int) string {
 	return string(b)
 }
 
+// ---- a failed STARTTLS handshake in the middle of a chunked transfer ---------------------------------------------------
+
+type FailedUpgradeCase struct {
+	Prop  string `json:"prop"` // c06 | c07: whose oracle
+	Mode  string `json:"mode"`
+	K1    int    `json:"k1"` // octets of the chunk sent before STARTTLS
+	K2    int    `json:"k2"` // octets of the LAST chunk sent after the handshake has failed
+	Limit int64  `json:"limit,omitempty"`
+}
+
+// evalFailedUpgrade: MAIL, RCPT, BDAT k1, STARTTLS answered 220, octets that are no handshake (5xx), BDAT k2 LAST. The
+// connection is still the plaintext connection it was: the transfer is still the same transfer. Whatever the server makes
+// of it, the backend never sees a message end in EOF that is not the whole message (C07), and never more than the limit,
+// the count of the first chunk included (C06).
+func evalFailedUpgrade(c FailedUpgradeCase) *h.Finding {
+	cfg, be := modeConfig(c.Mode)
+	cfg.TLSAvailable = true
+	cfg.MaxMessageBytes = c.Limit
+	p1, p2 := strings.Repeat("a", c.K1), strings.Repeat("b", c.K2)
+	whole := p1 + p2
+	desc := fmt.Sprintf("mode=%s limit=%d: BDAT %d, STARTTLS with a failed handshake, BDAT %d LAST", c.Mode, c.Limit, c.K1, c.K2)
+	var last []byte
+	var f *h.Finding
+	leak, pan := h.Bubble(func() {
+		live := h.NewLive(cfg, be, false)
+		live.Greeting()
+		live.Send([]byte(hello(c.Mode)))
+		live.Send([]byte("MAIL FROM:<ok@a.example>\r\nRCPT TO:<ok@b.example>\r\n"))
+		live.Send([]byte(fmt.Sprintf("BDAT %d\r\n%s", c.K1, p1)))
+		if out := live.Send([]byte("STARTTLS\r\n")); !strings.HasPrefix(string(out), "220") {
+			f = h.F(c.Prop+"-upgrade-harness", "%s: STARTTLS answered %q", desc, out)
+			return
+		}
+		live.Send([]byte("this is not a handshake\r\n"))
+		last = live.Send([]byte(fmt.Sprintf("BDAT %d LAST\r\n%s", c.K2, p2)))
+		live.Send([]byte("NOOP\r\n"))
+		live.Hangup(h.TermEOF)
+	})
+	if f != nil {
+		return f
+	}
+	if pan != "" {
+		return h.F(c.Prop+"-harness-panic", "%s: %s", desc, pan)
+	}
+	if leak != "" {
+		return h.F(c.Prop+"-goroutine-leak", "%s: %.300s", desc, leak)
+	}
+	if a := be.FirstAnomaly(); a != "" {
+		return h.F(c.Prop+"-backend-anomaly", "%s: %s", desc, a)
+	}
+	for _, e := range be.Trace() {
+		if e.Kind != "Data" && e.Kind != "LMTPData" {
+			continue
+		}
+		if c.Limit > 0 && int64(len(e.Body)) > c.Limit {
+			return h.F(c.Prop+"-backend-read-too-much", "%s: the backend read %d octets in one transaction", desc, len(e.Body))
+		}
+		if e.ReadErr == "EOF" && string(e.Body) != whole {
+			return h.F(c.Prop+"-incomplete-as-complete", "%s: the backend's reader ended with EOF after %q; the message is %q", desc, e.Body, whole)
+		}
+		if e.ReadErr == "EOF" && c.Limit > 0 && int64(len(whole)) > c.Limit {
+			return h.F(c.Prop+"-over-limit-eof", "%s: a message of %d octets was delivered as complete", desc, len(whole))
+		}
+	}
+	if c.Limit > 0 && int64(len(whole)) > c.Limit {
+		if rs, err := ref.ParseRepliesLenient(last); err != nil || len(rs) == 0 || rs[0].Class() == 2 {
+			return h.F(c.Prop+"-over-limit-accepted", "%s: the LAST chunk takes the message to %d octets and was answered %q", desc, len(whole), last)
+		}
+	}
+	return nil
+}
+
+func init() { h.RegisterReplayer("failed-upgrade", evalFailedUpgrade) }
+
+// failedUpgradeCases: the family for one property.
+func failedUpgradeCases(prop string) []FailedUpgradeCase {
+	var out []FailedUpgradeCase
+	for _, mode := range corpusModes {
+		for _, lim := range []int64{0, 8, 20} {
+			for _, k1 := range []int{1, 5, 8, 15, 20} {
+				for _, k2 := range []int{0, 1, 5, 12, 20} {
+					if lim > 0 && int64(k1) > lim {
+						continue
+					}
+					out = append(out, FailedUpgradeCase{Prop: prop, Mode: mode, K1: k1, K2: k2, Limit: lim})
+				}
+			}
+		}
+	}
+	return out
+}
+
+func runFailedUpgrades(run *h.Run, prop string) {
+	for _, c := range failedUpgradeCases(prop) {
+		c := c
+		f := evalFailedUpgrade(c)
+		run.Eval(true)
+		if f != nil {
+			run.Violate("failed-upgrade", c, f, func() *h.Finding { return evalFailedUpgrade(c) })
+			run.Outcome("violation:" + f.Sig)
+		} else {
+			run.Outcome("failed-upgrade-ok")
+		}
+	}
+}
+
 func init() { h.RegisterReplayer("c07", evalC07) }
 
 func C07(tier string) int {
 	run := h.NewRun("C07", tier, "fault_enumeration", "", 20*time.Minute)
 	corpus := TransferCorpus()
 	terms := []string{h.TermEOF, h.TermTimeout, h.TermReset}
-	run.Rule = fmt.Sprintf("corpus of %d DATA/BDAT conversations (SMTP, LMTP, LMTP per-recipient backend; dots, terminator look-alikes, empty message, size limit, 1-3 chunks, LAST on empty/non-empty chunk, two messages per connection, abandoned transfers followed by RSET/QUIT/EHLO/NOOP/MAIL/DATA) x EVERY byte offset as the point where the client's stream ends x terminal answer {EOF, timeout error, reset error (both as *net.OpError, as sockets return them), EOF delivered together with the last octets in one Read} x {prefix in one segment, one octet per segment}. Distinct by construction; non-trivial = the cut lies inside or after the first message transfer. Oracle: reader ends with EOF iff the whole message arrived, and then the octets equal the message; otherwise a non-EOF error, delivered octets are a prefix, and the final reply position holds no 2xx.", len(corpus))
+	run.Rule = fmt.Sprintf("corpus of %d DATA/BDAT conversations (SMTP, LMTP, LMTP per-recipient backend; dots, terminator look-alikes, empty message, size limit, 1-3 chunks, LAST on empty/non-empty chunk, two messages per connection, abandoned transfers followed by RSET/QUIT/EHLO/NOOP/MAIL/DATA) x EVERY byte offset as the point where the client's stream ends x terminal answer {EOF, timeout error, reset error (both as *net.OpError, as sockets return them), EOF delivered together with the last octets in one Read} x {prefix in one segment, one octet per segment}. Distinct by construction; non-trivial = the cut lies inside or after the first message transfer. Oracle: reader ends with EOF iff the whole message arrived, and then the octets equal the message; otherwise a non-EOF error, delivered octets are a prefix, and the final reply position holds no 2xx. Plus: a chunk, STARTTLS answered 220, octets that are no handshake, then the LAST chunk (3 modes x chunk sizes x limits {none, 8, 20}, real TLS library on the server side): no reader ever ends with EOF on anything but the whole message.", len(corpus))
 	run.Assumptions = []string{"the backend returns the reader's error (a backend that swallows it claims success itself)", "cuts inside the CRLF of a final 'BDAT 0 LAST' line are not judged (all message octets and the LAST token have arrived)"}
 	type job struct {
 		ci, cut int
@@ -155,6 +262,7 @@ func C07(tier string) int {
 			run.Sample("cut", 6, map[string]interface{}{"conv": cv.Name, "mode": cv.Mode, "cut": j.cut, "sent": fmt.Sprintf("%q", cv.In[:j.cut])})
 		}
 	})
+	runFailedUpgrades(run, "c07")
 	return run.Finish()
 }
 
